@@ -2709,11 +2709,22 @@ impl Translator {
             std::collections::hash_map::Entry::Occupied(o) => o.get().clone(),
             std::collections::hash_map::Entry::Vacant(v) => {
                 st.funcs_to_generate.push(desc.clone());
+                // a lambda in a generic function is generated once per instantiation of what it
+                // captures, even if its own type does not mention a type parameter
+                let captures_overloaded = matches!(
+                    &desc.kind,
+                    FuncKind::AnonymousFunc { capture_types, .. }
+                        if capture_types.iter().any(|ty| ty.is_overloaded())
+                );
                 let label = match &desc.overload_ty {
-                    None => func_name.clone(),
-                    Some(overload_ty) => {
-                        let monoty = overload_ty.monotype().unwrap();
-                        let mut label_hint = format!("{func_name}__%{monoty}");
+                    None if !captures_overloaded => func_name.clone(),
+                    overload_ty => {
+                        let mut label_hint = func_name.clone();
+                        if let Some(overload_ty) = overload_ty {
+                            let monoty = overload_ty.monotype().unwrap();
+                            let label_hint = &mut label_hint;
+                            swrite!(label_hint, "__%{monoty}");
+                        }
                         if let FuncKind::AnonymousFunc {
                             capture_types_concrete,
                             ..
